@@ -62,7 +62,9 @@ class TokenParser(Parser):
             r"*(?P<type>[^{]+?)\s*)?\{(?P<values>[^}]+)\}\s*(?=;)",
             "ENUM",
         )
-        TOK.add(r"(?<=})\s*(?P<defs>(?:[a-zA-Z0-9_]+\s*,\s*)+[a-zA-Z0-9_]+)\s*(?=;)", "DEFS")
+        # Several declarators after a structure definition, each may be a pointer and / or an array: `} a_t, *pa_t, arr_t[4];`
+        declarator = r"(?:\*\s*)*[a-zA-Z0-9_]+(?:\s*\[[^;,\n\]]*\])*"
+        TOK.add(rf"(?<=}})\s*(?P<defs>(?:{declarator}\s*,\s*)+{declarator})\s*(?=;)", "DEFS")
         TOK.add(
             r"(?P<name>(?:\*\s*)*[a-zA-Z0-9_]+)(?:\s*:\s*(?P<bits>\d+))?(?:\s*\[(?P<count>[^;\n]*)\])?\s*(?=;)", "NAME"
         )
@@ -160,13 +162,17 @@ class TokenParser(Parser):
                 names.append(type_.__name__)
 
         names.extend(self._names(tokens))
+        base = type_
         for name in names:
-            if issubclass(type_, Structure) and type_.__anonymous__:
-                type_.__anonymous__ = False
-                type_.__name__ = name
-                type_.__qualname__ = name
+            if issubclass(base, Structure) and base.__anonymous__:
+                # An anonymous structure takes the first name it is given, without the pointer / array part of the declarator
+                identifier = self.TOK.patterns[self.TOK.NAME].match(name + ";").group("name").lstrip("* \t")
+                base.__anonymous__ = False
+                base.__name__ = identifier
+                base.__qualname__ = identifier
 
-            type_, name, bits = self._parse_field_type(type_, name)
+            # Every declarator applies to the type named by the typedef, not to the previous declarator's type
+            type_, name, bits = self._parse_field_type(base, name)
             if bits is not None:
                 raise ParserError(f"line {self._lineno(tokens.previous)}: typedefs cannot have bitfields")
             self.cstruct.add_type(name, type_)
